@@ -87,6 +87,10 @@ theorem csg_units_known : csgUnitsOK = true := by decide +kernel
     IUPAC atomic weights to 0.5 %, no symbol or number twice -/
 theorem elements_consistent : elementsOK = true ∧ elementTablesConsistent = true := by decide +kernel
 
+/-- the factors demanded of the reader / writer code paths ("other places") are those of the library's own tables and constants,
+    and the two force factors are reciprocal -/
+theorem place_references_are_the_tables : placeRefsOK = true := by decide +kernel
+
 /-! non-vacuity: the tables are not empty and the hypotheses of the generic theorems are met -/
 example : dimensions.length = 9 ∧ (tableOf "Distance").length = 5 ∧ elementNumber.length = 71 := by decide +kernel
 example : ("Distance", distance) ∈ dimensions ∧ "bohr" ∈ keys distance := by decide +kernel
